@@ -463,6 +463,30 @@ def body(text):
 
 # ------------------------------------------------------------------ the check
 
+def wildcard_after_super(rng):
+    import srcparse
+    la, lb, lc, lw = rng.randint(1, 4), rng.randint(1, 4), rng.randint(1, 4), rng.randint(0, 4)
+    code = lambda: rng.choice(["N", "N", "S", "W", "R", "Y"])
+    inner = rng.choice(["a b", "a* b", "b a*", "a b a"])
+    n_inner = sum({"a": la, "b": lb}[x.rstrip("*")] for x in inner.split())
+    nest = rng.random() < 0.4
+    first = ("abab" if nest else "ab") + ("*" if rng.random() < 0.3 else "")
+    n_first = 2 * n_inner if nest else n_inner
+    tail = rng.choice(["c", "c*", "c a", "b* c"])
+    n_tail = sum({"a": la, "b": lb, "c": lc}[x.rstrip("*")] for x in tail.split())
+    L = n_first + lw + n_tail
+    text = ('declare component W: ->\nsequence a = "%d%s"\nsequence b = "%d%s"\nsequence c = "%d%s"\nsequence ab = %s\n' %
+            (la, code(), lb, code(), lc, code(), inner))
+    if nest:
+        text += "sequence abab = ab ab*\n" if rng.random() < 0.5 else "sequence abab = ab ab\n"
+    text += 'sequence Wd = %s "?%s" %s : %d\n' % (first, code(), tail, L)
+    text += 'strand S = %s "?%s" %s : %d\nstrand T = Wd*\nstructure M = S + T : %d. + %d.\n' % (first, code(), tail, L, L, L)
+    with core.scratch("pepper_c12w_") as d:
+        with open(os.path.join(d, "top.comp"), "w") as f:
+            f.write(text)
+        return srcparse.bundle_from_dir(d, "top", [])
+
+
 def run(st, tier, seed):
     res = Result("C12")
     res.rule = ("programs from the typed generator (components of size 2-12; systems of 1-4 instances over 1-3 templates, nesting depth "
@@ -477,7 +501,13 @@ def run(st, tier, seed):
     per = 3
     cases = []      # (bundle, book, base, lines, judged, fixed_text(canonical names), tag)
     for i in range(n_bundles):
-        if rng.random() < 0.55:
+        if i % 12 == 5:
+            # directed shape: a wildcard region that is NOT the last item and comes after a (nested, possibly starred) super-sequence,
+            # in a strand and in a super-sequence: the region's place in the item list and in the flattened list differ
+            b = wildcard_after_super(rng)
+            what = "component"
+            res.count("directed:wildcard-after-super-sequence")
+        elif rng.random() < 0.55:
             size = rng.choice([2, 4, 6, 8, 10, 12]) if tier == "quick" else rng.choice([2, 4, 8, 12, 20, 30])
             b = progen.gen_component_bundle(rng, size=size, satisfiable=rng.random() < 0.7)
             what = "component"
@@ -599,6 +629,54 @@ def run(st, tier, seed):
             else:
                 if g.get("err") != "fix-error":
                     res.corr_breaks.append({"name": name + " (error class)", "input": inp, "model": g if "err" in g else "accepts", "impl": r.get("exc")})
+    # directed, judged on the OTHER back-end (.des, whose layout comes from base_seqs, not from the item lists the .pil prints):
+    # a strand with a wildcard region after a super-sequence is fixed to one concrete, link-consistent string; afterwards every
+    # position of the strand must allow exactly its letter, and no other position of the complex may have gained bases
+    import semantics
+    for k in range(8 if tier == "quick" else 200):
+        b = wildcard_after_super(rng)
+        r0 = impl.compile_bundle(b, "des")
+        if not r0["ok"]:
+            continue
+        try:
+            S0, structs0, _ = semantics.system_of_des(r0["text"])
+        except (ValueError, KeyError):
+            continue
+        plist = S0.structs["M"]
+        L = len(structs0["M"].split("+")[0])
+        ra = {}
+        for v, t in S0.templates.items():
+            r_, p_ = S0.uf.find(v)
+            ra[r_] = ra.get(r_, frozenset("ACGT")) & (semantics.compl_set(t) if p_ else t)
+        if any(not a for a in ra.values()) or S0.conflict:
+            continue
+        chosen, letters = {}, []
+        for (v, c) in plist[:L]:
+            r_, p_ = S0.uf.find(v)
+            if r_ not in chosen:
+                chosen[r_] = rng.choice(sorted(ra[r_]))
+            base = chosen[r_]
+            letters.append({"A": "T", "T": "A", "C": "G", "G": "C"}[base] if (p_ ^ (1 if c else 0)) else base)
+        ftext = "strand S = %s\n" % "".join(letters)
+        r1 = impl.compile_bundle(b, "des", fixed_text=ftext)
+        res.evaluations += 1
+        res.count("directed:des-judged-strand-fix")
+        inp = {"files": b.texts, "entry": b.entry, "includes": [], "fixed": ftext}
+        cmd = "pepper-compiler --des --fixed fixed.fix top"
+        if not r1["ok"]:
+            res.violations.append({"what": "a link-consistent fixed string for strand S was rejected (%s)" % r1.get("exc"), "input": inp,
+                                   "sig": "C12:des:consistent-fix-rejected", "cmd": cmd})
+            continue
+        S1, _, _ = semantics.system_of_des(r1["text"])
+        f0, f1 = S0.forced(["M"])["allowed"], S1.forced(["M"])["allowed"]
+        bad = [kk for kk in range(L) if f1.get(("M", kk)) != letters[kk]]
+        grew = [kk for kk in range(len(plist)) if not set(f1.get(("M", kk), "")) <= set(f0.get(("M", kk), ""))]
+        if bad or grew:
+            kk = (bad or grew)[0]
+            res.violations.append({"what": "after fixing strand S to %s position %d of the complex allows %r (before: %r, letter fixed onto it: %s)" % (
+                                       "".join(letters), kk, f1.get(("M", kk)), f0.get(("M", kk)), letters[kk] if kk < L else "-"),
+                                   "input": inp, "observed": {"positions_wrong": bad[:10], "positions_grown": grew[:10]},
+                                   "sig": "C12:des:wrong-positions", "cmd": cmd})
     # text level: the model of the --fixed file parser and of the substring dispatch of compiler() (PepperModel/ParseFixed.lean,
     # theorems PepperProps/ParseFixed.lean) against the real parse_fixed / load_fixed / compiler()
     if st.driver_ok:
